@@ -5,6 +5,7 @@ package main
 
 import (
 	"bufio"
+	"crypto/cipher"
 	"encoding/json"
 	"os"
 
@@ -91,7 +92,7 @@ func c05vec(args []string) error {
 		var got interface{}
 		switch c["kind"] {
 		case "vec":
-			blk, err := sm4.NewCipher(c05Val(c["k"].([]interface{})))
+			blk, err := c05NewCipher(c05Val(c["k"].([]interface{})))
 			if err != nil {
 				got = map[string]interface{}{"error": err.Error()}
 				break
@@ -112,6 +113,24 @@ func c05vec(args []string) error {
 		w.WriteByte('\n')
 	}
 	return sc.Err()
+}
+
+// Every key reaches NewCipher in the same caller-owned buffer, which is overwritten as soon as NewCipher has returned
+// (a caller may wipe or reuse its key material): the cipher object must not depend on that memory afterwards, and a
+// later NewCipher must not mistake the buffer for the key it held before.
+var c05KeyStore [16]byte
+
+func c05NewCipher(k []byte) (cipher.Block, error) {
+	if len(k) != len(c05KeyStore) {
+		return sm4.NewCipher(k)
+	}
+	buf := c05KeyStore[:]
+	copy(buf, k)
+	blk, err := sm4.NewCipher(buf)
+	for i := range buf {
+		buf[i] = 0xa5
+	}
+	return blk, err
 }
 
 type cipherBeh struct {
@@ -143,7 +162,7 @@ func c05beh(args []string) error {
 		if err := json.Unmarshal(sc.Bytes(), &beh); err != nil {
 			return err
 		}
-		blk, err := sm4.NewCipher(c05Val([]interface{}{"lcg", float64(100 + beh.Key)}))
+		blk, err := c05NewCipher(c05Val([]interface{}{"lcg", float64(100 + beh.Key)}))
 		bs := 0
 		if err == nil {
 			bs = blk.BlockSize()
